@@ -850,7 +850,9 @@ fn check_typedef_measurement(
     let opt_compu_method = module.compu_method.get(&t_measurement.conversion);
     let (lower_limit, upper_limit) =
         calc_compu_method_limits(opt_compu_method, t_measurement.datatype);
-    if lower_limit > t_measurement.lower_limit || upper_limit < t_measurement.upper_limit {
+    // the same tolerance as for MEASUREMENT, CHARACTERISTIC, AXIS_PTS and AXIS_DESCR
+    let existing_limits = (t_measurement.lower_limit, t_measurement.upper_limit);
+    if !check_limits_valid(existing_limits, (lower_limit, upper_limit)) {
         log_msgs.push(A2lError::LimitCheckError {
             item_name: name.to_string(),
             blockname: "TYPEDEF_MEASUREMENT".to_string(),
